@@ -83,6 +83,7 @@ def run(ctx):
     if ctx.driver:
         scrubtie.run_correspondence(ctx, 2000 if ctx.quick else 30000)
     stmts = pool.statements(ctx, n_gen=400 if ctx.quick else 5000)
+    stmts = pool.scripts() + stmts
     for st in stmts:
         for rnd in range(1 if ctx.quick else 3):
             dialect = st["dialect"]
